@@ -202,11 +202,70 @@ theorem ltBytes_antisymm : ∀ (a b : Bytes), ltBytes a b = false → ltBytes b 
           rw [if_neg (by omega)] at h1
           rw [hxy, ih ys h1 h2]
 
+theorem ltUnits_irrefl (a : List Nat) : ltUnits a a = false := by
+  induction a with
+  | nil => simp [ltUnits]
+  | cons x xs ih => simp [ltUnits, ih]
+
+theorem ltUnits_asymm : ∀ (a b : List Nat), ltUnits a b = true → ltUnits b a = false := by
+  intro a
+  induction a with
+  | nil => intro b; cases b <;> simp [ltUnits]
+  | cons x xs ih =>
+    intro b
+    cases b with
+    | nil => simp [ltUnits]
+    | cons y ys =>
+      simp only [ltUnits]
+      intro h
+      split at h
+      · rw [if_neg (by omega), if_pos (by omega)]
+      · split at h
+        · simp at h
+        · rw [if_neg (by omega), if_neg (by omega)]; exact ih ys h
+
+theorem ltUnits_le_trans : ∀ (a b c : List Nat), ltUnits b a = false → ltUnits c b = false → ltUnits c a = false := by
+  intro a
+  induction a with
+  | nil =>
+    intro b c h1 h2
+    cases b with
+    | nil => exact h2
+    | cons y ys => cases c <;> simp [ltUnits] at *
+  | cons x xs ih =>
+    intro b c h1 h2
+    cases b with
+    | nil => simp [ltUnits] at h1
+    | cons y ys =>
+      cases c with
+      | nil => simp [ltUnits] at h2
+      | cons z zs =>
+        simp only [ltUnits] at *
+        split at h1
+        · simp at h1
+        · split at h2
+          · simp at h2
+          · split at h1
+            · rw [if_neg (by omega)]
+              split at h2
+              · rw [if_pos (by omega)]
+              · rw [if_pos (by omega)]
+            · split at h2
+              · rw [if_neg (by omega), if_pos (by omega)]
+              · rw [if_neg (by omega), if_neg (by omega)]
+                exact ih ys zs h1 h2
+
+/-- the order on names the sort uses (UTF-16 code units): irreflexive, asymmetric, and `≤` is transitive -/
+theorem ltName_irrefl (a : Bytes) : ltName a a = false := ltUnits_irrefl _
+theorem ltName_asymm (a b : Bytes) : ltName a b = true → ltName b a = false := ltUnits_asymm _ _
+theorem ltName_le_trans (a b c : Bytes) : ltName b a = false → ltName c b = false → ltName c a = false :=
+  ltUnits_le_trans _ _ _
+
 /-- `p ≤ q` on names -/
-def leName (p q : Pair) : Prop := ltBytes q.name p.name = false
+def leName (p q : Pair) : Prop := ltName q.name p.name = false
 
 theorem leName_trans {p q r : Pair} (h1 : leName p q) (h2 : leName q r) : leName p r :=
-  ltBytes_le_trans p.name q.name r.name h1 h2
+  ltName_le_trans p.name q.name r.name h1 h2
 
 theorem sortedByName_iff_pairwise (l : Params) : SortedByName l ↔ l.Pairwise leName := by
   induction l with
@@ -246,7 +305,7 @@ theorem insertSorted_pairwise (p : Pair) (l : Params) (hl : l.Pairwise leName) :
     split
     · next hlt =>
       refine List.pairwise_cons.mpr ⟨?_, hl⟩
-      have hpq : leName p q := ltBytes_asymm _ _ hlt
+      have hpq : leName p q := ltName_asymm _ _ hlt
       intro x hx
       rcases List.mem_cons.mp hx with rfl | hx
       · exact hpq
@@ -274,7 +333,7 @@ theorem insertSorted_filter (p : Pair) (n : Bytes) (l : Params) (hl : l.Pairwise
           have hxn' : x.name = p.name := by rw [hpn]; simpa using hxn
           have hqx : leName q x := by
             rcases List.mem_cons.mp hx with rfl | hx
-            · exact ltBytes_irrefl _
+            · exact ltName_irrefl _
             · exact hq x hx
           unfold leName at hqx
           rw [hxn', hlt] at hqx
